@@ -76,7 +76,8 @@ def relay_of(g):
 
 def pick_rc(rng, exact_only, allow_fail):
     if exact_only:
-        return 0
+        # 'fail_exact': exact checkers, some of which can be made to fail at validation time (checker 4 stamps and compares exactly)
+        return 4 if (allow_fail and rng.random() < 0.3) else 0
     r = rng.random()
     if allow_fail and r < 0.3:
         return 4
@@ -906,6 +907,74 @@ def gen_reorder_cycle_program(rng):
         body = ('Q', i, rng.choice([0, 2]), body)
     p.tasks[0] = body
     steps = [['E', '0', '0'], ['S', '1', 'q', '0'], ['E', '0', '1'], ['S', '1', 'q', str(rng.choice([0, v, u]))], ['E', '0', '0'], ['S', '1', 'q', '0']]
+    return p, steps
+
+
+def gen_cycle_then_hidden_program(rng):
+    """Directed family for C05 (also C19): a build is aborted by a cyclic requirement that is diagnosed only AFTER the cycle search
+    has already walked into other dependencies of the requiring task (they precede the closing require in its dependency list);
+    the very next reachability question asked of the instance is a hidden-dependency check -- on the reading side (a task reads a
+    product without requiring its generator) or on the writing side (a generator writes a resource that an unrelated task reads).
+    Whatever the cycle search left behind must not answer that question."""
+    p = Prog(); p.kind = 'inject'; p.exact_only = True
+    p.sources = [0, 1]
+    OUTER, W = 0, 1
+    tid = 2
+    variant = rng.choice(['read', 'read', 'write'])
+    # W: generator of product 10 (and, in the 'write' variant, of resource 11 once source 1 says so)
+    wbody = ('W', 10, 0, ('p', 5), ('T', ('a',)))
+    if variant == 'write':
+        wbody = ('W', 10, 0, ('p', 5), ('I', ('l', 2), ('W', 11, 0, ('k', 9), ('T', ('a',))), ('T', ('a',))))
+    p.tasks[W] = ('R', 1, 0, wbody)
+    p.generated = {10: (W, 0)}
+    # a chain MID_1 -> ... -> MID_n -> W below OUTER
+    n = rng.randint(1, 3)
+    mids = list(range(tid, tid + n)); tid += n
+    for i, m in enumerate(mids):
+        nxt = mids[i + 1] if i + 1 < n else W
+        p.tasks[m] = ('Q', nxt, 0, ('T', ('a',)))
+    # further leaves OUTER requires before the closing require
+    leaves = []
+    for _ in range(rng.randint(0, 2)):
+        l = tid; tid += 1; src = 20 + len(leaves); p.sources.append(src)
+        p.tasks[l] = ('R', src, 0, ('T', ('a',))); leaves.append(l)
+    BACK = tid; tid += 1
+    hops = rng.randint(0, 1)          # BACK -> (HOP ->) OUTER
+    if hops:
+        HOP = tid; tid += 1
+        p.tasks[HOP] = ('Q', OUTER, 0, ('T', ('a',)))
+        p.tasks[BACK] = ('Q', HOP, 0, ('T', ('a',)))
+    else:
+        p.tasks[BACK] = ('Q', OUTER, 0, ('T', ('a',)))
+    closing = ('I', ('l', 2), ('Q', BACK, 0, ('T', ('a',))), ('T', ('a',)))
+    # OUTER: require the chain and the leaves (shuffled), read source 0 last, then -- when it says so -- the closing require
+    pre = [mids[0]] + leaves
+    rng.shuffle(pre)
+    body = ('R', 0, 0, closing)
+    for t in reversed(pre):
+        body = ('Q', t, 0, body)
+    p.tasks[OUTER] = body
+    RD = tid; tid += 1
+    if variant == 'read':
+        p.tasks[RD] = ('R', 10, 0, ('T', ('a',)))          # reads W's product, never requires W
+    else:
+        p.sources.append(11)
+        p.tasks[RD] = ('R', 11, 0, ('T', ('a',)))          # reads 11, which W starts writing later
+    steps = [['E', '0', '0'], ['E', '1', '0']] + [['E', str(20 + i), '3'] for i in range(len(leaves))]
+    if variant == 'write':
+        steps.append(['E', '11', '4'])
+    steps.append(['S', '1', 'q', str(OUTER)])
+    if variant == 'write' or rng.random() < 0.5:
+        steps.append(['S', '1', 'q', str(RD)] if variant == 'write' else ['S', '1', 'q', str(mids[-1])])
+    steps.append(['E', '0', '1'])
+    steps.append(['S', '1', 'q', str(OUTER)])             # aborted: cyclic requirement, found after the chain was walked
+    if variant == 'read':
+        steps.append(['S', '1', 'q', str(RD)])            # hidden dependency on the reading side: must abort
+    else:
+        steps.append(['E', '1', '1'])
+        steps.append(['S', '1', 'q', str(W)])             # W now writes 11, which RD read: hidden dependency on the writing side
+    steps.append(['E', '0', '0'])
+    steps.append(['S', '1', 'q', str(OUTER)])
     return p, steps
 
 
